@@ -1446,8 +1446,40 @@ var c08Methods = []string{"getBlock", "getBlock", "getBlock", "getTransaction", 
 	"getHealth", "getBalance", "", "GETBLOCK", "getBlocké"}
 
 // rpcBody: the JSON-RPC request object (or another top-level value)
+// oddMethod: an unknown method name whose length sits at a size boundary, with a multi-byte rune straddling it, or
+// with control characters — the name is echoed into logs and into the metrics label
+func (g *c08Gen) oddMethod() string {
+	n := []int{31, 32, 33, 63, 64, 65, 66, 127, 128, 129, 255, 256, 257, 1000}[g.rng.Intn(14)]
+	rn := g.pick("é", "€", "😀", "\u00e9", "é", "ß")
+	var b strings.Builder
+	switch g.rng.Intn(4) {
+	case 0: // ASCII up to n-1 bytes, then the rune across byte n
+		b.WriteString(strings.Repeat("a", n-1))
+		b.WriteString(rn)
+		b.WriteString(strings.Repeat("b", g.rng.Intn(4)))
+	case 1: // runes all the way
+		for b.Len() < n+2 {
+			b.WriteString(rn)
+		}
+	case 2: // a control character or DEL somewhere
+		b.WriteString(strings.Repeat("m", n))
+		s := []byte(b.String())
+		s[g.rng.Intn(len(s))] = []byte{0x01, 0x1f, 0x7f, 0x09}[g.rng.Intn(4)]
+		return string(s)
+	default:
+		b.WriteString(strings.Repeat("x", n-2))
+		b.WriteString(rn)
+		b.WriteString(rn)
+	}
+	return b.String()
+}
+
 func (g *c08Gen) rpcBody() *c08J {
 	method := c08Methods[g.rng.Intn(len(c08Methods))]
+	if g.rng.Intn(12) == 0 {
+		method = g.oddMethod()
+		g.s.Count("method:odd-long-name")
+	}
 	o := jObj()
 	if g.rng.Intn(10) != 0 {
 		o = o.with("jsonrpc", jStr("2.0"))
